@@ -59,7 +59,8 @@ Print Assumptions C05_update_not_early.
 (** Non-vacuity: a well-formed history in which both a local update (0 -> 1, then 1 -> 2
     after an acknowledged phase-1 packet) and a peer-initiated update (2 -> 3) happen. *)
 Example C05_update_not_early_nonvacuous :
-  wf_ops sct Z Z update_example_ops /  map (fun e => snd e) (ua_trace sct Z Z sym_seal sym_open {| keyUpdateInterval := 2; firstKeyUpdateInterval := 1 |} (ua_new 1 0 10) update_example_ops)
+  wf_ops sct Z Z update_example_ops /\
+  map (fun e => snd e) (ua_trace sct Z Z sym_seal sym_open {| keyUpdateInterval := 2; firstKeyUpdateInterval := 1 |} (ua_new 1 0 10) update_example_ops)
   = [0; 0; 1; 1; 1; 1; 1; 1; 2; 2; 2; 3].
 Proof. exact update_example_ok. Qed.
 Print Assumptions C05_update_not_early_nonvacuous.
